@@ -18,7 +18,7 @@ def run(rep, tier):
     idx = cast.load('xcmp.cpp')
     rep.analysed(unit='xcmp.cpp')
     rep.trusted = ['clang 14 AST', 'frozen table DOWNCAST_GUARDS (function, target type, reason)']
-    rep.assumptions = ['"all byte strings" is a dynamic quantifier: these clauses are necessary conditions; hangs by deep recursion are not decided',
+    rep.assumptions = ['"all byte strings" is a dynamic quantifier: these clauses are necessary conditions; the depth constant accepted by R10 is calibrated by measurement, not derived',
                        'ctype on plain char is formally UB for bytes >= 0x80 (tolerated by glibc): not claimed, see DESIGN.md']
     # R1 exception discipline
     rep.rule('R1', 'every exception raised by the compiler (and by the in-process assembler) derives from std::exception; the drivers run the '
@@ -97,6 +97,7 @@ def run(rep, tier):
     for c in range(256):
         rep.add('R8', 'byte=0x%02X' % c, c not in probs, pos(rt.node) + ' xcmp::Lexer::readToken', probs.get(c, 'END_OF_FILE or a diagnostic is reached'),
                 nontrivial=(chr(c) in '|"\'#:<>~' or chr(c).isalnum()))
+    rule_recursion(rep)
     if tier == 'thorough':
         import itertools
         reps = [0x20, 0x0A, 0x23, 0x7C, 0x22, 0x27, 0x5C, 0x61, 0x30, 0x2D, 0x3A, 0x3C, 0x7E, 0x3D, 0x80, 0xFF]
@@ -105,6 +106,14 @@ def run(rep, tier):
         for pr in pairs:
             rep.add('R8', 'bytes=' + ' '.join('%02X' % b for b in pr), pr not in probs, pos(rt.node) + ' xcmp::Lexer::readToken',
                     probs.get(pr, 'END_OF_FILE or a diagnostic is reached'), nontrivial=True)
+
+
+def rule_recursion(rep, rid='R10'):
+    rep.rule(rid, 'every recursive cycle of the call graph reachable from main() is depth-bounded: it passes through a function that checks a '
+             'nesting counter against a constant (<= %d) and throws before recursing, or it descends one level of the syntax tree per call and '
+             'the parser that builds the tree is so bounded' % robust.MAX_ACCEPTED_DEPTH_BOUND, floor=4,
+             floor_reason='call-graph summary + expression-parser, statement-parser and tree-visitor components')
+    return robust.rule_recursion(rep, rid, 'xcmp.cpp', tree_base='xcmp::AstNode', min_reachable=300)
 
 
 def _under_found_test(f, ret):
